@@ -23,6 +23,17 @@ Theorem c15_int_roundtrip : forall z rest, int64 z -> stops_int rest ->
 Proof. exact RoundTripInst.rt_int_roundtrip. Qed.
 Print Assumptions c15_int_roundtrip.
 
+(* Int through a numeric specification: %[+][ ][0][width][l]d / i of a value the directive can represent
+   is read back by %[l]d (or %[l]i when no zero padding was requested) into the same value, consuming
+   exactly the characters written; without `l` this needs the sign restoration of scan_from_with (F6) *)
+Theorem c15_int_spec_roundtrip : forall sp ssp z rest,
+  conv_signed (n_conv sp) = true ->
+  (n_conv ssp = 100%N \/ (n_conv ssp = 105%N /\ n_zero sp = false)) ->
+  in_range (n_long sp) z -> in_range (n_long ssp) z -> stops_int rest ->
+  scan_num rt_cfg ssp (print_num sp (VInt z) ++ rest)%list = Some (VInt z, length (print_num sp (VInt z))).
+Proof. exact RoundTripInst.rt_int_spec_roundtrip. Qed.
+Print Assumptions c15_int_spec_roundtrip.
+
 (* sequences of Strings and Ints with separators, at any start position, String sink and source *)
 Theorem c15_show_seq_string : forall its pre rest, show_seq_ok rt_cfg its rest ->
   scan_str rt_cfg (fst (print_to_string rt_cfg pre (length pre) its) ++ rest)%list (length pre) (List.map sitem_of its) nil
@@ -66,7 +77,8 @@ Theorem c15_float_show_look : forall b rest, finite b -> stops_float rest ->
 Proof. exact RoundTripInst.rt_float_show_look. Qed.
 Print Assumptions c15_float_show_look.
 
-(* sequences of Ints, Floats and Strings written with %$, "%li" or a plain "%.pf", separated by literal
+(* sequences of Ints, Floats and Strings written with %$, a signed decimal directive or a plain "%.pf"
+   (wf_seq lists the side conditions item by item), separated by literal
    text, at any start position, String sink and source; value_close = Ints and Strings equal, Floats
    within the printed precision *)
 Theorem c15_seq_roundtrip_string : forall its sits pre rest, wf_seq rt_cfg its sits rest ->
